@@ -104,25 +104,6 @@ def classify_internal(files, tb, err=None):
         return None
     inner = tb['innermost_exactly']
     texts = list(files.values())
-    if inner == ('exactly_lib/impls/types/integer/evaluate_integer.py', 'python_evaluate') \
-            and tb['type'] not in R.CAUGHT_BY_DOCUMENTED_EVALUATION:
-        # KF-C18-1: an INTEGER expression whose evaluation raises something else than Syntax/Value/Type/NameError.
-        # Model: some argument of the case, evaluated by Python, raises exactly the reported exception type.
-        for c in R.candidate_strings(texts):
-            if M.gate(c) is None and '@[' not in c:
-                for cand in (c, ) + tuple(p for p in c.split(':') if p != c):
-                    if R.int_class(cand) == 'raises:' + tb['type']:
-                        return 'KF-C18-1'
-        return None
-    if inner == ('exactly_lib/impls/types/matcher/impls/matches_glob_pattern.py', '_match_path') \
-            and tb['type'] == 'ValueError' and tb['message'] == 'empty pattern':
-        # KF-C18-3: file matcher `path GLOB-PATTERN` hands the pattern to pathlib unchecked; pathlib refuses a
-        # pattern without parts ('' / '.' / './').  Model: `path` occurs and some argument is such a pattern.
-        if re.search(r'(^|\s)path(\s|$)', '\n'.join(texts)):
-            for c in R.candidate_strings(texts):
-                if '@[' not in c and R.path_glob_refused(c):
-                    return 'KF-C18-3'
-        return None
     if tb['type'] == 'ValueError' and tb['message'] in ('embedded null byte', 'embedded null character') \
             and any('\x00' in t for t in texts):
         # KF-C18-4: a NUL character in an argument that becomes a file name / program argument reaches the OS
@@ -138,24 +119,6 @@ def classify_internal(files, tb, err=None):
         if re.search(r'(^|\n)\s*def\s+\S+\s+%s\s*=' % re.escape(m.group(1)), '\n'.join(texts)):
             return 'KF-C18-5'
         return None
-    if inner == ('exactly_lib/impls/types/path/parse_path.py', '_first_fragment_is_symbol_that_can_act_as_path') \
-            and tb['type'] == 'IndexError' and (err or '').startswith('In [act]'):
-        # KF-C18-6: an empty string where a PATH is expected makes the path parser index an empty list; instruction
-        # parsers turn that into SYNTAX_ERROR ("list index out of range"), the act phase parser does not.
-        # Model: the report is about [act] and the text contains an empty quoted string.
-        if re.search(r'(^|\s)(""|\'\')(\s|$)', '\n'.join(texts)):
-            return 'KF-C18-6'
-        return None
-    in_replace = any(f[0] == 'exactly_lib/impls/types/string_transformer/impl/replace/impl.py' for f in tb['frames'])
-    in_template = any(f[1] in ('parse_template', '_compile_template', 'expand_template', '_subx', 'template')
-                      for f in tb['frames'] if not f[0].startswith('exactly_lib/'))
-    if in_replace and in_template and tb['type'] in ('re.error', 'error', 're.PatternError', 'PatternError',
-                                                      'IndexError'):
-        # KF-C18-2: the replacement string of `replace` is never validated; Python refuses it at first use.
-        # Model: some argument of the case is a replacement template that Python refuses.
-        for c in R.candidate_strings(texts):
-            if '\\' in c and (R.template_invalid(c, 'a') or R.template_invalid(c, '(a)(b)')):
-                return 'KF-C18-2'
     return None
 
 
